@@ -33,6 +33,14 @@ func evalTerm(t string, vars map[string]string, env map[string]int64) (int64, st
 		}
 		return 0, "undefined:" + v
 	}
+	// a parenthesised comparison used as an operand: (x == nil), !(a < b)
+	if strings.HasPrefix(t, "(") || strings.HasPrefix(t, "!") {
+		if v, err := evalAPExpr(t, vars, env); err == "" {
+			return v, ""
+		} else if strings.HasPrefix(err, "undefined:") {
+			return 0, err
+		}
+	}
 	return 0, "unknown:" + t
 }
 
